@@ -82,7 +82,7 @@ structure Cache where
   partitionBy : List Uid
   derivedFrom : List NodeId              -- a set
   cols        : List (Uid × ColMeta)     -- all columns in scope (hidden ones included)
-  limit       : Int
+  limit       : Option Int               -- `None`: no slice_head in the current SELECT
   groupBy     : List Uid                 -- a set
   isFiltered  : Bool
   backend     : Backend
@@ -115,7 +115,7 @@ def ofSource (id : NodeId) (cols : List (String × Uid × Dtype)) (b : Backend) 
     partitionBy := []
     derivedFrom := [id]
     cols := dictOf (cols.map (fun c => (c.2.1, ⟨c.1, c.2.2, .elementWise⟩)))
-    limit := 0, groupBy := [], isFiltered := false, backend := b }
+    limit := none, groupBy := [], isFiltered := false, backend := b }
 
 def mapUidWith (m : List (Uid × Uid)) (u : Uid) : Uid := ((m.find? (·.1 == u)).map (·.2)).getD u
 
@@ -170,7 +170,7 @@ def update (self : Cache) (node : Ast) (right : Option Cache := none) : Cache :=
           uuidToName := invert n2u
           groupBy := setUnion self.groupBy self.partitionBy
           partitionBy := [] }
-    | .sliceHead _ _ n _ => { self with limit := n }
+    | .sliceHead _ _ n _ => { self with limit := some n }
     | .join .. =>
         match right with
         | none => self
@@ -181,7 +181,7 @@ def update (self : Cache) (node : Ast) (right : Option Cache := none) : Cache :=
             nameToUuid := n2u
             uuidToName := invert n2u
             derivedFrom := setUnion self.derivedFrom r.derivedFrom
-            limit := 0, groupBy := [] }
+            limit := none, groupBy := [] }
     | .union .. =>
         match right with
         | none => self
@@ -189,11 +189,11 @@ def update (self : Cache) (node : Ast) (right : Option Cache := none) : Cache :=
           { self with
             cols := self.cols.filter (fun e => self.uuidToName.any (·.1 == e.1))
             derivedFrom := setUnion self.derivedFrom r.derivedFrom
-            limit := 0, groupBy := [] }
+            limit := none, groupBy := [] }
     | .subqueryMarker .. =>
         { self with
           cols := self.cols.map (fun e => (e.1, { e.2 with dtype := e.2.dtype.withoutConst, ftype := .elementWise }))
-          limit := 0, groupBy := [], isFiltered := false }
+          limit := none, groupBy := [], isFiltered := false }
     | .source .. => self
     | .arrange .. => self
   { res with derivedFrom := setUnion res.derivedFrom [node.id] }
@@ -304,7 +304,7 @@ def requiresSubquery (self : Cache) (node : Ast) : Option String :=
   let kind := node.isVerbKind
   let rootFtypes : List Ftype := node.colRoots.flatMap colFtypes
   let cacheFtype (u : Uid) : Option Ftype := (self.col? u).map (·.ftype)
-  if ["filter", "summarize", "arrange", "group_by", "join", "union"].contains kind && self.limit != 0 then
+  if ["filter", "summarize", "arrange", "group_by", "join", "union"].contains kind && self.limit.isSome then
     some s!"`{kind}` after `slice_head`"
   else if kind == "mutate" &&
       node.colRoots.any (fun root => (aggWindowNodes root).any (fun sub => (colFtypes sub).any isAggOrWindow)) then
